@@ -5,7 +5,7 @@ from . import base, tlc
 SPECS = os.path.join(base.VERIF, "specs")
 
 
-def inductive(module, cinit, init, indinit, inv, timeout=1500):
+def inductive(module, cinit, init, indinit, inv, timeout=2400, next_=None, consequence=None):
     """Returns {"base": ok?, "step": ok?, "wall_s": ...}; raises MachineryError when Apalache cannot be run or gives no verdict."""
     d = tlc.scratch_dir("apa")
     for f in os.listdir(SPECS):
@@ -14,8 +14,10 @@ def inductive(module, cinit, init, indinit, inv, timeout=1500):
     out = {}
     t0 = time.time()
     try:
-        for name, i, length in (("base", init, 0), ("step", indinit, 1)):
-            cmd = ["apalache-mc", "check", "--cinit=" + cinit, "--init=" + i, "--inv=" + inv, "--length=%d" % length, "--out-dir=" + os.path.join(d, "out"), module + ".tla"]
+        queries = [("base", init, inv, 0), ("step", indinit, inv, 1)] + ([("consequence", indinit, consequence, 0)] if consequence else [])
+        for name, i, iv, length in queries:
+            cmd = ["apalache-mc", "check", "--cinit=" + cinit, "--init=" + i, "--inv=" + iv, "--length=%d" % length, "--out-dir=" + os.path.join(d, "out")] + \
+                  (["--next=" + next_] if next_ else []) + [module + ".tla"]
             try:
                 p = subprocess.run(cmd, cwd=d, capture_output=True, text=True, timeout=timeout)
             except FileNotFoundError:
